@@ -800,15 +800,42 @@ fn run_tier<C: Check>(check: &C, tier: Tier) -> i32 {
     by_run.sort_by_key(|f| f.run);
     let mut seen_known: BTreeSet<String> = BTreeSet::new();
     for f in by_run.iter().take(12) {
-        let (sc, v, steps) = minimise(check, &f.scenario, &f.violation);
         let file = root.join("replays").join(format!(
             "{}-{}{}-{}-{}.json",
             check.id(),
             if check.leg().is_empty() { String::new() } else { format!("{}-", check.leg()) },
-            sanitize(&v.key),
+            sanitize(&f.violation.key),
             seed,
             f.run
         ));
+        let _ = std::fs::create_dir_all(root.join("replays"));
+        // does the scenario as found produce the violation on its own in a fresh process? If it does not, the
+        // code under test carries hidden state across calls: minimising the scenario in this (used) process
+        // would be meaningless, the call history is searched instead (below)
+        let orig_rf = ReplayFile {
+            property: check.id().to_string(),
+            clause: f.violation.clause.clone(),
+            key: f.violation.key.clone(),
+            message: f.violation.message.clone(),
+            verif_seed: seed,
+            run: f.run,
+            tier: tier.name().to_string(),
+            shrink_steps: 0,
+            scenario: serde_json::to_value(&f.scenario).unwrap_or(Value::Null),
+            history: Vec::new(),
+        };
+        let replay_has_key = |file: &Path| -> bool {
+            std::env::current_exe()
+                .ok()
+                .and_then(|exe| std::process::Command::new(exe).arg("--replay").arg(file).env("VERIF_ROOT", &root).output().ok())
+                .is_some_and(|o| String::from_utf8_lossy(&o.stdout).contains(&format!("key={} digest=", f.violation.key)))
+        };
+        let orig_ok = std::fs::write(&file, serde_json::to_string_pretty(&orig_rf).unwrap_or_default()).is_ok() && replay_has_key(&file);
+        let (sc, v, steps) = if orig_ok || check.nondeterminism_is_finding() {
+            minimise(check, &f.scenario, &f.violation)
+        } else {
+            (f.scenario.clone(), f.violation.clone(), 0)
+        };
         let rf = ReplayFile {
             property: check.id().to_string(),
             clause: v.clause.clone(),
@@ -856,6 +883,10 @@ fn run_tier<C: Check>(check: &C, tier: Tier) -> i32 {
                     v.key,
                     if same_key { "with different values" } else { "only intermittently" }
                 );
+            } else if orig_ok {
+                // the minimised scenario does not reproduce, the scenario as found does: report that one
+                let _ = std::fs::write(&file, serde_json::to_string_pretty(&orig_rf).unwrap_or_default());
+                println!("  note: key={} — the minimised scenario did not reproduce in a fresh process; the replay file holds the scenario as found", v.key);
             } else {
                 // The scenario alone does not produce the violation in a fresh process: the code under test
                 // carries hidden state across calls (or the harness is at fault). Look for the call history.
